@@ -1112,6 +1112,9 @@ package main
 //@   modifies inferred
 //@   loop 1
 //@     iterates [C09,C10] receipts_need_P_and_R: sent(globals.hub.routeSrv) > prev(sent(globals.hub.routeSrv)) ==> !pud.deleted && ((pud.modeGiven & pud.modeWant) & types.ModePres) != 0 && ((pud.modeGiven & pud.modeWant) & types.ModeRead) != 0
+// (C09: "relayed notifications reach only ... users with read permission - never channel readers": a channel reader is in
+// the topic's table with J, R and P)
+//@     iterates [C09] receipts_never_to_channel_readers: sent(globals.hub.routeSrv) > prev(sent(globals.hub.routeSrv)) ==> !pud.isChan
 //@     iterates [C10] receipts_never_to_banned: sent(globals.hub.routeSrv) > prev(sent(globals.hub.routeSrv)) ==> ((pud.modeGiven & pud.modeWant) & types.ModeJoin) != 0
 //@     iterates [C10] one_per_subscriber: sent(globals.hub.routeSrv) <= prev(sent(globals.hub.routeSrv)) + 1
 //@ func (t *Topic) presSubsOffline(what string, params *presParams, filterSource *presFilters, filterTarget *presFilters, skipSid string, offlineOnly bool)
